@@ -550,7 +550,9 @@ func (b BindlistInstr) Execute(env *Zlisp) error {
 	}
 
 	for i, bindThisSym := range b.syms {
-		env.LexicalBindSymbol(bindThisSym, arr[i])
+		if err := env.LexicalBindSymbol(bindThisSym, arr[i]); err != nil {
+			return err
+		}
 	}
 	env.pc++
 	return nil
